@@ -115,8 +115,12 @@ inductive Cmd where
   | keyboardLevel (n : Nat)
   deriving Repr, DecidableEq
 
+/-- `usize::MAX` of a 64-bit target (assumption of the check: the harness runs on x86-64; on a 32-bit
+target the constant would be `2 ^ 32 - 1` and nothing else changes) -/
 def usizeMax : Nat := 2 ^ 64 - 1
-/-- `usize::saturating_add(1)` -/
+/-- `usize::saturating_add(1)`: `n + 1` below `usize::MAX`; AT `usize::MAX` the value stays
+`usize::MAX` — as a one-based screen position this is "a line / column beyond any screen" (terminals
+clamp positions to the screen), not the successor of the zero-based position -/
 def satSucc (n : Nat) : Nat := if n + 1 > usizeMax then usizeMax else n + 1
 
 def altScreen : Nat := 1049
@@ -559,6 +563,10 @@ def interp (bs : List Nat) : Option (List Op) :=
 
 /-! ## what each command is specified to do -/
 
+/-- what selecting colour `c` for `role` means at depth `d`: the RGB triple in true colour, ONE palette
+entry otherwise — `pal` on a 256-colour terminal, one of the entries 0 / 8 / 7 / 15 on a grey one.
+Spec decision: on a grey terminal an UNDERLINE colour means nothing (there is no 16-colour SGR code for
+the underline colour), so there "one palette entry per colour" is deliberately not demanded. -/
 def colorMeaning (c : Color) (d : Depth) (role : Role) : List SgrOp :=
   match d with
   | .trueColor => [colorOp role (.inl (c.r, c.g, c.b))]
@@ -593,6 +601,22 @@ def faceModifyMeaning (m : FaceModify) (d : Depth) : List SgrOp :=
 def kittyMeaning (caps : Caps) (level : Nat) : List Op :=
   if caps.kitty then [.kittyKeyboard level] else []
 
+/-- The specification: the terminal operations each command stands for.  It is written from the
+documentation of `TerminalCommand` and xterm's ctlseqs, not from the encoder; where the command's
+documentation leaves a choice, the choice made here is a SPEC DECISION (it coincides with what the
+encoder does, and a change of the encoder in these places needs a change of this specification):
+
+* `Scroll(0)`, `CursorMove{0,0}`, `EraseChars(0)`, an empty `FaceModify` → no operation at all (a
+  parameter 0 would be read by a terminal as the default 1);
+* `ScrollRegion{start, end}` with `end ≤ start` → reset the region to the whole screen (`CSI r`);
+* positions are one-based on the wire: `row + 1`, saturating at `usize::MAX` (`satSucc`; theorem
+  `C05_meaning_plain` states the plain `+ 1` below `usize::MAX`, `C05_saturated` the corner);
+* `DecModeSet{AltScreen}` on a terminal with the kitty keyboard protocol is bracketed with the
+  keyboard level: enable → `DECSET 1049` THEN level `KEYBOARD_LEVEL`; disable → level 0 THEN
+  `DECRST 1049` (the level is per screen: it is lowered while still on the alternate screen);
+  `KeyboardLevel` means nothing on a terminal without the protocol;
+* `Face` means: reset, then select (SGR 0 first, so nothing of the previous face survives);
+* `CursorMove` is the column move followed by the row move. -/
 def meaning (caps : Caps) : Cmd → List Op
   | .char cp => [.print cp]
   | .face f => [.sgr (faceMeaning f caps.depth)]
